@@ -11,7 +11,7 @@
    timed scenarios of checks/c08.py tie down on the code. *)
 From Coq Require Import NArith Arith List Bool Lia.
 From LLRP Require Import Client.Types Client.Model Client.MapLemmas Client.StepFacts
-     Client.InvCore Client.InvAck Client.InvOut Client.InvC08 Client.InvC08Gate Client.C05Proofs Client.C08Proofs.
+     Client.InvCore Client.InvAck Client.InvOut Client.InvC08 Client.InvC08Gate Client.C05Proofs Client.C07Proofs Client.C08Proofs.
 Import ListNotations.
 Open Scope N_scope.
 
@@ -71,4 +71,23 @@ Proof.
   intros cfg evs Hex s Hrd o Ho Hs Ht.
   destruct (only_negotiation_frames_before_ready cfg evs Hex Hrd o Ho) as [H|[H|H]];
     [contradiction|rewrite Ht in H; discriminate|rewrite Ht in H; discriminate].
+Qed.
+
+(* the same for what is already on the wire, with the loop's own frames pinned down: a frame without a caller is a header-only
+   KeepAliveAck whose id was enqueued by the keep-alive handler for a keep-alive the reader sent (C07_log_is_received_keepalives) —
+   so an acknowledgement handed in by a CALLER (SendNoWait of a KeepAliveAck, round-6 seed) is a request like any other: it has a
+   caller, and is not there before the gate opens *)
+Theorem wire_before_ready : forall cfg evs, exported_only evs ->
+  let s := run cfg evs in
+  ready s = false ->
+  forall o, In o (out s) ->
+    (o_src o = None /\ f_typ (o_frame o) = T_KeepAliveAck /\ f_len (o_frame o) = 0 /\ In (f_id (o_frame o)) (ka_enqueued s)) \/
+    (o_src o <> None /\ (f_typ (o_frame o) = T_GetSupportedVersion \/ f_typ (o_frame o) = T_SetProtocolVersion)).
+Proof.
+  intros cfg evs Hex s Hrd o Ho.
+  destruct (only_negotiation_frames_before_ready cfg evs Hex Hrd o (or_introl Ho)) as [H|H].
+  - left. split; [assumption|]. apply (own_frames_are_acks cfg evs o Ho). unfold is_own. rewrite H. reflexivity.
+  - destruct (o_src o) as [c|] eqn:Es.
+    + right. split; [discriminate|assumption].
+    + left. split; [reflexivity|]. apply (own_frames_are_acks cfg evs o Ho). unfold is_own. rewrite Es. reflexivity.
 Qed.
